@@ -10,7 +10,9 @@
         by valid triggers) for the command machine, the API calls and the handler callbacks;
         `ustep` for a step of the busy event machine;
      4. the history invariant `Inv` (ring well formed and valid, idle <-> u_cmd = None,
-        busy -> u_cmd/u_type = the last popped event) and the delivered theorems. *)
+        busy -> u_cmd/u_type = the last popped event) and the delivered theorems;
+     5. the command machine: (k_state, k_cmd, k_wafter) invariant `K`, hence
+        k_state = CS_IDLE -> k_cmd = None over every history (no hypothesis). *)
 From Coq Require Import List NArith ZArith Bool Arith Lia.
 From CatV Require Import Bytes Defs Codec Fsm TraceDefs Lemmas_C13 Lemmas_C03b Lemmas_C15.
 Import ListNotations.
@@ -1357,3 +1359,609 @@ Qed.
 
 
 End World.
+
+(* ================================================================== *)
+(* 5. the command machine: k_state = CS_IDLE -> k_cmd = None            *)
+(*    (what cat_get_processed_command(ATCMD) returns between lines)     *)
+(* ================================================================== *)
+
+Definition kpt : Type := (cstate * option nat * cstate)%type.
+Definition kp (s : state) : kpt := (k_state (k s), k_cmd (k s), k_wafter (k s)).
+Definition q_st (v : cstate) (e : kpt) : kpt := let '(a, b, d) := e in (v, b, d).
+Definition q_cmd (v : option nat) (e : kpt) : kpt := let '(a, b, d) := e in (a, v, d).
+Definition q_wa (v : cstate) (e : kpt) : kpt := let '(a, b, d) := e in (a, b, v).
+
+Lemma kp_setk_state : forall v s, kp (setk_state v s) = q_st v (kp s). Proof. reflexivity. Qed.
+Lemma kp_setk_cmd : forall v s, kp (setk_cmd v s) = q_cmd v (kp s). Proof. reflexivity. Qed.
+Lemma kp_setk_wafter : forall v s, kp (setk_wafter v s) = q_wa v (kp s). Proof. reflexivity. Qed.
+Lemma kp_start_flush_c : forall a s, kp (start_flush_c a s) = q_st CS_FLUSH_WAIT (q_wa a (kp s)). Proof. reflexivity. Qed.
+Lemma kp_start_flush_raw_c : forall a s, kp (start_flush_raw_c a s) = q_st CS_FLUSH_WAIT (q_wa a (kp s)). Proof. reflexivity. Qed.
+Lemma kp_ack_error : forall s, kp (ack_error s) = q_st CS_FLUSH_WAIT (q_wa CS_AFTER_RESET (kp s)). Proof. reflexivity. Qed.
+Lemma kp_ack_ok : forall s, kp (ack_ok s) = q_st CS_FLUSH_WAIT (q_wa CS_AFTER_RESET (kp s)). Proof. reflexivity. Qed.
+Lemma kp_end_with_error_c : forall s, kp (end_with_error ATCMD s) = q_st CS_FLUSH_WAIT (q_wa CS_AFTER_RESET (kp s)). Proof. reflexivity. Qed.
+Lemma kp_end_with_ok_c : forall s, kp (end_with_ok ATCMD s) = q_st CS_FLUSH_WAIT (q_wa CS_AFTER_RESET (kp s)). Proof. reflexivity. Qed.
+Lemma kp_reset_state : forall s,
+  kp (reset_state s) = q_cmd None (q_st (if k_hold (k s) then CS_HOLD else CS_IDLE) (kp s)).
+Proof. intros s. unfold reset_state. destruct (k_hold (k s)); reflexivity. Qed.
+Lemma kp_enable_hold_state : forall s, kp (enable_hold_state s) = q_st CS_HOLD (kp s). Proof. reflexivity. Qed.
+Lemma kp_prepare_search_command : forall s, kp (prepare_search_command s) = q_cmd None (kp s). Proof. reflexivity. Qed.
+Lemma kp_set_loop_state_c : forall rd s,
+  kp (set_loop_state ATCMD rd s) = q_st (if rd then CS_READ_LOOP else CS_TEST_LOOP) (kp s).
+Proof. reflexivity. Qed.
+Lemma kp_start_flush_after_ok_c : forall s,
+  kp (start_flush_after_ok ATCMD s) = q_st CS_FLUSH_WAIT (q_wa CS_AFTER_OK (kp s)).
+Proof. reflexivity. Qed.
+Lemma kp_start_flush_after_c : forall a b s,
+  kp (start_flush_after ATCMD a b s) = q_st CS_FLUSH_WAIT (q_wa a (kp s)).
+Proof. reflexivity. Qed.
+#[local] Hint Rewrite kp_setk_state kp_setk_cmd kp_setk_wafter kp_start_flush_c kp_start_flush_raw_c kp_ack_error kp_ack_ok
+  kp_end_with_error_c kp_end_with_ok_c kp_reset_state kp_enable_hold_state kp_prepare_search_command
+  kp_set_loop_state_c kp_start_flush_after_ok_c kp_start_flush_after_c : kpdb.
+
+Lemma kp_setk_index : forall v s, kp (setk_index v s) = kp s. Proof. reflexivity. Qed.
+Lemma kp_setk_partial : forall v s, kp (setk_partial v s) = kp s. Proof. reflexivity. Qed.
+Lemma kp_setk_length : forall v s, kp (setk_length v s) = kp s. Proof. reflexivity. Qed.
+Lemma kp_setk_position : forall v s, kp (setk_position v s) = kp s. Proof. reflexivity. Qed.
+Lemma kp_setk_write_size : forall v s, kp (setk_write_size v s) = kp s. Proof. reflexivity. Qed.
+Lemma kp_setk_var : forall v s, kp (setk_var v s) = kp s. Proof. reflexivity. Qed.
+Lemma kp_setk_type : forall v s, kp (setk_type v s) = kp s. Proof. reflexivity. Qed.
+Lemma kp_setk_char : forall v s, kp (setk_char v s) = kp s. Proof. reflexivity. Qed.
+Lemma kp_setk_cr : forall v s, kp (setk_cr v s) = kp s. Proof. reflexivity. Qed.
+Lemma kp_setk_hold : forall v s, kp (setk_hold v s) = kp s. Proof. reflexivity. Qed.
+Lemma kp_setk_hold_exit : forall v s, kp (setk_hold_exit v s) = kp s. Proof. reflexivity. Qed.
+Lemma kp_setk_wbuf : forall v s, kp (setk_wbuf v s) = kp s. Proof. reflexivity. Qed.
+Lemma kp_setk_wstate : forall v s, kp (setk_wstate v s) = kp s. Proof. reflexivity. Qed.
+Lemma kp_setk_implicit : forall v s, kp (setk_implicit v s) = kp s. Proof. reflexivity. Qed.
+Lemma kp_setu_state : forall v s, kp (setu_state v s) = kp s. Proof. reflexivity. Qed.
+Lemma kp_setu_index : forall v s, kp (setu_index v s) = kp s. Proof. reflexivity. Qed.
+Lemma kp_setu_position : forall v s, kp (setu_position v s) = kp s. Proof. reflexivity. Qed.
+Lemma kp_setu_cmd : forall v s, kp (setu_cmd v s) = kp s. Proof. reflexivity. Qed.
+Lemma kp_setu_var : forall v s, kp (setu_var v s) = kp s. Proof. reflexivity. Qed.
+Lemma kp_setu_type : forall v s, kp (setu_type v s) = kp s. Proof. reflexivity. Qed.
+Lemma kp_setu_wbuf : forall v s, kp (setu_wbuf v s) = kp s. Proof. reflexivity. Qed.
+Lemma kp_setu_wstate : forall v s, kp (setu_wstate v s) = kp s. Proof. reflexivity. Qed.
+Lemma kp_setu_wafter : forall v s, kp (setu_wafter v s) = kp s. Proof. reflexivity. Qed.
+Lemma kp_set_cbuf : forall v s, kp (set_cbuf v s) = kp s. Proof. reflexivity. Qed.
+Lemma kp_set_ubuf : forall v s, kp (set_ubuf v s) = kp s. Proof. reflexivity. Qed.
+Lemma kp_set_mem : forall v s, kp (set_mem v s) = kp s. Proof. reflexivity. Qed.
+Lemma kp_set_dis_cmd : forall v s, kp (set_dis_cmd v s) = kp s. Proof. reflexivity. Qed.
+Lemma kp_set_dis_grp : forall v s, kp (set_dis_grp v s) = kp s. Proof. reflexivity. Qed.
+Lemma kp_set_fault : forall v s, kp (set_fault v s) = kp s. Proof. reflexivity. Qed.
+Lemma kp_set_gL : forall v s, kp (set_gL v s) = kp s. Proof. reflexivity. Qed.
+Lemma kp_set_gS : forall v s, kp (set_gS v s) = kp s. Proof. reflexivity. Qed.
+Lemma kp_set_gR : forall v s, kp (set_gR v s) = kp s. Proof. reflexivity. Qed.
+Lemma kp_set_fault_flag : forall s, kp (set_fault_flag s) = kp s. Proof. reflexivity. Qed.
+Lemma kp_setg_pos : forall f v s, kp (setg_pos f v s) = kp s. Proof. intros [|] v s; reflexivity. Qed.
+Lemma kp_setg_buf : forall f v s, kp (setg_buf f v s) = kp s. Proof. intros [|] v s; reflexivity. Qed.
+Lemma kp_setg_var : forall f v s, kp (setg_var f v s) = kp s. Proof. intros [|] v s; reflexivity. Qed.
+Lemma kp_setg_index : forall f v s, kp (setg_index f v s) = kp s. Proof. intros [|] v s; reflexivity. Qed.
+#[local] Hint Rewrite kp_setk_index kp_setk_partial kp_setk_length kp_setk_position kp_setk_write_size kp_setk_var kp_setk_type kp_setk_char kp_setk_cr kp_setk_hold kp_setk_hold_exit kp_setk_wbuf kp_setk_wstate kp_setk_implicit kp_setu_state kp_setu_index kp_setu_position kp_setu_cmd kp_setu_var kp_setu_type kp_setu_wbuf kp_setu_wstate kp_setu_wafter kp_set_cbuf kp_set_ubuf kp_set_mem kp_set_dis_cmd kp_set_dis_grp kp_set_fault kp_set_gL kp_set_gS kp_set_gR kp_setg_pos kp_setg_buf kp_setg_var kp_setg_index kp_set_fault_flag : kpdb.
+
+(* generic tactic: case-split every stuck match; results of pair-returning helpers are kept
+   as `fst (helper ..)` so that the helper's own frame lemma applies *)
+Ltac kp_step :=
+  match goal with
+  | |- context[match ?x with _ => _ end] =>
+    lazymatch type of x with
+    | prod state _ =>
+      let E := fresh "E" in let s0 := fresh "s" in let b0 := fresh "b" in
+      destruct x as [s0 b0] eqn:E; apply (f_equal fst) in E; cbn [fst] in E; subst s0
+    | _ => destruct x eqn:?
+    end
+  end.
+Ltac kp_solve := cbv beta iota zeta; repeat (kp_step; cbn [fst snd]); autorewrite with kpdb; reflexivity.
+
+Lemma kp_unsolicited_reset_state : forall s, kp (unsolicited_reset_state s) = kp s.
+Proof. reflexivity. Qed.
+Lemma kp_start_flush_u : forall a s, kp (start_flush_u a s) = kp s.
+Proof. reflexivity. Qed.
+Lemma kp_put_cur : forall f c s, kp (put_cur f c s) = kp s.
+Proof. intros. unfold put_cur. kp_solve. Qed.
+#[local] Hint Rewrite kp_unsolicited_reset_state kp_start_flush_u
+  kp_put_cur : kpdb.
+
+Lemma kp_print_string : forall f s t, kp (fst (print_string f s t)) = kp s.
+Proof. intros. unfold print_string. kp_solve. Qed.
+Lemma kp_print_strings : forall f s ts, kp (fst (print_strings f s ts)) = kp s.
+Proof. intros. unfold print_strings. kp_solve. Qed.
+Lemma kp_end_with_error : forall s, kp (end_with_error UNSOL s) = kp s.
+Proof. intros. unfold end_with_error. kp_solve. Qed.
+Lemma kp_end_with_ok : forall s, kp (end_with_ok UNSOL s) = kp s.
+Proof. intros. unfold end_with_ok. kp_solve. Qed.
+Lemma kp_set_loop_state : forall rd s, kp (set_loop_state UNSOL rd s) = kp s.
+Proof. intros. unfold set_loop_state. kp_solve. Qed.
+Lemma kp_start_flush_after_ok : forall s, kp (start_flush_after_ok UNSOL s) = kp s.
+Proof. intros. unfold start_flush_after_ok. kp_solve. Qed.
+Lemma kp_start_flush_after : forall a b s, kp (start_flush_after UNSOL a b s) = kp s.
+Proof. intros. unfold start_flush_after. kp_solve. Qed.
+#[local] Hint Rewrite kp_print_string kp_print_strings kp_end_with_error kp_end_with_ok kp_set_loop_state
+  kp_start_flush_after_ok kp_start_flush_after : kpdb.
+
+Lemma kp_print_response_test : forall D s, kp (fst (print_response_test D UNSOL s)) = kp s.
+Proof. intros. unfold print_response_test. kp_solve. Qed.
+#[local] Hint Rewrite kp_print_response_test : kpdb.
+Lemma kp_start_processing_format_test_args : forall D s,
+  kp (start_processing_format_test_args D UNSOL s) = kp s.
+Proof. intros. unfold start_processing_format_test_args. kp_solve. Qed.
+Lemma kp_start_processing_format_read_args : forall D s,
+  kp (start_processing_format_read_args D UNSOL s) = kp s.
+Proof. intros. unfold start_processing_format_read_args. kp_solve. Qed.
+Lemma kp_next_format_var : forall D s, kp (fst (next_format_var D UNSOL s)) = kp s.
+Proof. intros. unfold next_format_var. kp_solve. Qed.
+Lemma kp_set_cmd_state : forall s i v, kp (set_cmd_state s i v) = kp s.
+Proof. intros. unfold set_cmd_state. kp_solve. Qed.
+Lemma kp_prepare_parse_command : forall s, kp (prepare_parse_command s) = kp s.
+Proof. reflexivity. Qed.
+#[local] Hint Rewrite kp_start_processing_format_test_args kp_start_processing_format_read_args
+  kp_next_format_var kp_set_cmd_state kp_prepare_parse_command : kpdb.
+
+Lemma kp_print_current_cmd_full_name : forall s c sf,
+  kp (fst (print_current_cmd_full_name s c sf)) = kp s.
+Proof. intros. unfold print_current_cmd_full_name. kp_solve. Qed.
+#[local] Hint Rewrite kp_print_current_cmd_full_name : kpdb.
+Lemma kp_hold_exit : forall s st, kp (fst (hold_exit s st)) = kp s.
+Proof. intros. unfold hold_exit. kp_solve. Qed.
+Lemma kp_unsolicited_process_io_write_wait : forall s, kp (unsolicited_process_io_write_wait s) = kp s.
+Proof. intros. unfold unsolicited_process_io_write_wait. kp_solve. Qed.
+Lemma kp_apply_poke : forall s p, kp (apply_poke s p) = kp s.
+Proof. intros. unfold apply_poke. kp_solve. Qed.
+Lemma kp_apply_pokes : forall ps s, kp (fold_left apply_poke ps s) = kp s.
+Proof. induction ps as [|p ps IH]; intros s; cbn [fold_left]; [reflexivity|]. rewrite IH. apply kp_apply_poke. Qed.
+Lemma kp_apply_edit : forall f e s, kp (apply_edit f e s) = kp s.
+Proof. intros. unfold apply_edit. kp_solve. Qed.
+#[local] Hint Rewrite kp_hold_exit kp_unsolicited_process_io_write_wait kp_apply_poke kp_apply_pokes kp_apply_edit : kpdb.
+Lemma kp_format_test_args : forall D s, kp (format_test_args D UNSOL s) = kp s.
+Proof. intros. unfold format_test_args. kp_solve. Qed.
+#[local] Hint Rewrite kp_format_test_args : kpdb.
+
+Definition kok (a : cstate) (b : option nat) (d : cstate) : bool :=
+  match a with
+  | CS_IDLE => match b with None => true | Some _ => false end
+  | CS_FLUSH_WAIT | CS_FLUSH => negb (cstate_beq d CS_IDLE)
+  | _ => true
+  end.
+Definition kokE (e : kpt) : bool := let '(a, b, d) := e in kok a b d.
+Definition K (s : state) : Prop := kokE (kp s) = true.
+
+Lemma K_frame : forall s s', kp s' = kp s -> K s -> K s'.
+Proof. intros s s' H. unfold K. rewrite H. auto. Qed.
+
+Lemma K_idle : forall s, K s -> k_state (k s) = CS_IDLE -> k_cmd (k s) = None.
+Proof.
+  intros s H Hs. unfold K, kokE, kp in H. rewrite Hs in H. cbn in H.
+  destruct (k_cmd (k s)); [discriminate H | reflexivity].
+Qed.
+
+(* leaf: the new k_state is a constant, or the old one (known from Hs) *)
+Ltac k_leaf Hs HK :=
+  unfold K in *; autorewrite with kpdb;
+  cbv beta iota zeta delta [kokE kp q_st q_cmd q_wa] in *;
+  rewrite ?Hs in *;
+  first [ reflexivity | exact HK
+        | match goal with |- context[if ?b then _ else _] => destruct b; first [reflexivity | exact HK] end ].
+Ltac k_solve Hs HK := cbv beta iota zeta; repeat (kp_step; cbn [fst snd]); k_leaf Hs HK.
+
+Section KPure.
+Variable D : desc.
+
+Lemma K_update_command : forall s, k_state (k s) = CS_UPDATE_COMMAND_STATE -> K s -> K (update_command D s).
+Proof. intros s Hs HK. unfold update_command. k_solve Hs HK. Qed.
+Lemma K_search_command : forall s, k_state (k s) = CS_SEARCH_COMMAND -> K s -> K (search_command D s).
+Proof. intros s Hs HK. unfold search_command. k_solve Hs HK. Qed.
+Lemma K_spfr : forall s, K s -> K (start_processing_format_read_args D ATCMD s).
+Proof.
+  intros s HK. unfold start_processing_format_read_args.
+  cbv beta iota zeta; repeat (kp_step; cbn [fst snd]);
+  unfold K in *; autorewrite with kpdb; cbv beta iota zeta delta [kokE kp q_st q_cmd q_wa] in *;
+  first [reflexivity | exact HK].
+Qed.
+Lemma K_spft : forall s, K s -> K (start_processing_format_test_args D ATCMD s).
+Proof.
+  intros s HK. unfold start_processing_format_test_args, print_response_test.
+  cbv beta iota zeta; repeat (kp_step; cbn [fst snd]);
+  unfold K in *; autorewrite with kpdb; cbv beta iota zeta delta [kokE kp q_st q_cmd q_wa] in *;
+  first [reflexivity | exact HK].
+Qed.
+Lemma K_command_found : forall s, k_state (k s) = CS_COMMAND_FOUND -> K s -> K (command_found D s).
+Proof.
+  intros s Hs HK. unfold command_found.
+  destruct (cmd_of D ATCMD s) as [c|]; [|k_leaf Hs HK].
+  destruct (k_type (k s)); try solve [k_solve Hs HK].
+  destruct (c_only_test c); [k_leaf Hs HK | apply K_spfr; exact HK].
+Qed.
+Lemma K_fta : forall s, k_state (k s) = CS_FORMAT_TEST_ARGS -> K s -> K (format_test_args D ATCMD s).
+Proof.
+  intros s Hs HK. unfold format_test_args, next_format_var, print_response_test. k_solve Hs HK.
+Qed.
+Lemma K_print_cmd_list : forall s, k_state (k s) = CS_PRINT_CMD -> K s -> K (print_cmd_list D s).
+Proof.
+  intros s Hs HK. unfold print_cmd_list, print_cmd_form, cmd_list_next_cmd. k_solve Hs HK.
+Qed.
+Lemma K_start_print_cmd_list : forall s, K (start_print_cmd_list D s).
+Proof.
+  intros s. unfold start_print_cmd_list. destruct (_ =? _);
+  unfold K; autorewrite with kpdb; destruct (kp s) as [[a b] d]; reflexivity.
+Qed.
+Lemma K_process_hold_state : forall s, k_state (k s) = CS_HOLD -> K s -> K (process_hold_state s).
+Proof. intros s Hs HK. unfold process_hold_state. k_solve Hs HK. Qed.
+Lemma K_process_io_write_wait : forall s, k_state (k s) = CS_FLUSH_WAIT -> K s -> K (process_io_write_wait s).
+Proof. intros s Hs HK. unfold process_io_write_wait. k_solve Hs HK. Qed.
+Lemma K_reset_state : forall s, K (reset_state s).
+Proof.
+  intros s. unfold K. autorewrite with kpdb. destruct (kp s) as [[a b] d]. destruct (k_hold (k s)); reflexivity.
+Qed.
+Lemma K_ack : forall s, K (ack_error s) /\ K (ack_ok s).
+Proof. intros s. unfold K. autorewrite with kpdb. destruct (kp s) as [[a b] d]. split; reflexivity. Qed.
+Lemma K_ack_error : forall s, K (ack_error s). Proof. intros s. exact (proj1 (K_ack s)). Qed.
+Lemma K_ack_ok : forall s, K (ack_ok s). Proof. intros s. exact (proj2 (K_ack s)). Qed.
+Lemma K_end_err : forall s, K (end_with_error ATCMD s). Proof. intros s. exact (K_ack_error s). Qed.
+End KPure.
+
+Section KWorld.
+Variable D : desc.
+Variables ioS muS hS : Type.
+Variable io_read : ioS -> ioS * option N.
+Variable io_write : ioS -> N -> ioS * bool.
+Variable mu_lock : muS -> muS * bool.
+Variable mu_unlock : muS -> muS * bool.
+Variable h_call : hS -> hreq -> hS * hres.
+
+Local Notation world := (Fsm.world ioS muS hS).
+Local Notation mkWorld := (Fsm.mkWorld ioS muS hS).
+Local Notation st := (Fsm.st ioS muS hS).
+Local Notation io := (Fsm.io ioS muS hS).
+Local Notation mu := (Fsm.mu ioS muS hS).
+Local Notation hs := (Fsm.hs ioS muS hS).
+Local Notation logw := (Fsm.logw ioS muS hS).
+Local Notation upd_st := (Fsm.upd_st ioS muS hS).
+Local Notation set_st := (Fsm.set_st ioS muS hS).
+Local Notation set_io := (Fsm.set_io ioS muS hS).
+Local Notation set_mu := (Fsm.set_mu ioS muS hS).
+Local Notation bracket := (Fsm.bracket D ioS muS hS mu_lock mu_unlock).
+Local Notation api_trigger := (Fsm.api_trigger D ioS muS hS mu_lock mu_unlock).
+Local Notation api_hold_exit := (Fsm.api_hold_exit D ioS muS hS mu_lock mu_unlock).
+Local Notation apply_icall := (Fsm.apply_icall D ioS muS hS mu_lock mu_unlock).
+Local Notation call_h := (Fsm.call_h D ioS muS hS mu_lock mu_unlock h_call).
+Local Notation read_cmd_char := (Fsm.read_cmd_char ioS muS hS io_read).
+Local Notation reading := (Fsm.reading ioS muS hS io_read).
+Local Notation cmd_service := (Fsm.cmd_service D ioS muS hS io_read io_write mu_lock mu_unlock h_call).
+Local Notation unsolicited_events_service :=
+  (Fsm.unsolicited_events_service D ioS muS hS io_write mu_lock mu_unlock h_call).
+Local Notation service_body := (Fsm.service_body D ioS muS hS io_read io_write mu_lock mu_unlock h_call).
+Local Notation do_op := (Fsm.do_op D ioS muS hS io_read io_write mu_lock mu_unlock h_call).
+Local Notation step := (Fsm.step D ioS muS hS io_read io_write mu_lock mu_unlock h_call).
+Local Notation run := (Fsm.run D ioS muS hS io_read io_write mu_lock mu_unlock h_call).
+
+Ltac wsimpl := cbn [Fsm.st Fsm.tr Fsm.io Fsm.mu Fsm.hs Fsm.set_st Fsm.set_io Fsm.set_mu Fsm.set_hs
+                    Fsm.logw Fsm.upd_st Fsm.busy fst snd].
+
+(* steps that do not touch (k_state, k_cmd, k_wafter) *)
+Definition kfr (w w' : world) : Prop := kp (st w') = kp (st w).
+
+Lemma kfr_refl : forall w, kfr w w. Proof. intros; reflexivity. Qed.
+Lemma kfr_trans : forall w1 w2 w3, kfr w1 w2 -> kfr w2 w3 -> kfr w1 w3.
+Proof. unfold kfr. intros. congruence. Qed.
+
+Lemma bracket_kfr : forall w body, (forall w0, kfr w0 (fst (body w0))) -> kfr w (fst (bracket w body)).
+Proof.
+  intros w body H. unfold Fsm.bracket. destruct (d_mutex D); [|apply H].
+  destruct (mu_lock (mu w)) as [m1 ok]. destruct ok; cbn [negb]; [|reflexivity].
+  pose proof (H (logw (ELock true) (set_mu m1 w))) as H1.
+  destruct (body (logw (ELock true) (set_mu m1 w))) as [w2 s]. cbn [fst] in H1.
+  destruct (mu_unlock (mu w2)) as [m2 ok2]. destruct ok2; exact H1.
+Qed.
+
+Lemma kp_push : forall s ci t, kp (fst (push_unsolicited_cmd D s ci t)) = kp s.
+Proof.
+  intros. unfold push_unsolicited_cmd. destruct (ring_full D s); [reflexivity|].
+  cbv zeta. destruct (_ <? _); reflexivity.
+Qed.
+Lemma kp_pop : forall s, kp (fst (pop_unsolicited_cmd D s)) = kp s.
+Proof.
+  intros. unfold pop_unsolicited_cmd. destruct (ring_empty s); [reflexivity|].
+  cbv zeta. destruct (nth_error _ _); reflexivity.
+Qed.
+
+Lemma api_trigger_kfr : forall w ci t, kfr w (fst (api_trigger w ci t)).
+Proof.
+  intros. unfold Fsm.api_trigger. apply bracket_kfr. intros w0.
+  destruct (push_unsolicited_cmd D (Fsm.st _ _ _ w0) ci t) as [s' r] eqn:E. cbn [fst].
+  apply (f_equal fst) in E. cbn [fst] in E. subst s'. unfold kfr. wsimpl. apply kp_push.
+Qed.
+Lemma api_hold_exit_kfr : forall w status, kfr w (fst (api_hold_exit w status)).
+Proof.
+  intros. unfold Fsm.api_hold_exit. apply bracket_kfr. intros w0.
+  destruct (hold_exit (Fsm.st _ _ _ w0) status) as [s' r] eqn:E. cbn [fst].
+  apply (f_equal fst) in E. cbn [fst] in E. subst s'. unfold kfr. wsimpl. apply kp_hold_exit.
+Qed.
+Lemma apply_icall_kfr : forall w c, kfr w (apply_icall w c).
+Proof.
+  intros w [ci t|status]; unfold Fsm.apply_icall.
+  - pose proof (api_trigger_kfr w ci t) as H. destruct (api_trigger w ci t) as [w' r]. exact H.
+  - pose proof (api_hold_exit_kfr w status) as H. destruct (api_hold_exit w status) as [w' r]. exact H.
+Qed.
+Lemma icalls_kfr : forall cs w, kfr w (fold_left apply_icall cs w).
+Proof.
+  induction cs as [|c cs IH]; intros w; cbn [fold_left]; [apply kfr_refl|].
+  eapply kfr_trans; [apply apply_icall_kfr | apply IH].
+Qed.
+Lemma call_h_kfr : forall w q, kfr w (fst (call_h w q)).
+Proof.
+  intros. unfold Fsm.call_h. destruct (h_call (hs w) q) as [hs' r]. cbn [fst].
+  eapply kfr_trans; [|apply icalls_kfr]. unfold kfr. wsimpl. apply kp_apply_pokes.
+Qed.
+Lemma call_h_kfr' : forall w q w1 r, call_h w q = (w1, r) -> kp (st w1) = kp (st w).
+Proof. intros w q w1 r E. pose proof (call_h_kfr w q) as H. rewrite E in H. exact H. Qed.
+
+Lemma kp_kstate : forall s s', kp s' = kp s -> k_state (k s') = k_state (k s).
+Proof. intros s s' H. unfold kp in H. congruence. Qed.
+
+(* ---- the command machine ---- *)
+Lemma read_cmd_char_kfr : forall w, kfr w (fst (read_cmd_char w)).
+Proof.
+  intros. unfold Fsm.read_cmd_char, kfr. destruct (io_read (io w)) as [io' r]. destruct r as [ch|]; wsimpl; [|reflexivity].
+  cbv beta iota zeta; repeat (kp_step; cbn [fst snd]); autorewrite with kpdb; reflexivity.
+Qed.
+
+Lemma reading_K : forall X w body,
+  (forall ch s, k_state (k s) = X -> K s -> K (body ch s)) ->
+  k_state (k (st w)) = X -> K (st w) -> K (st (fst (reading w body))).
+Proof.
+  intros X w body H Hs HK. unfold Fsm.reading.
+  pose proof (read_cmd_char_kfr w) as E.
+  destruct (read_cmd_char w) as [w1 got]. cbn [fst] in E. destruct got; cbn [negb]; wsimpl.
+  - apply H; [rewrite (kp_kstate _ _ E); exact Hs | eapply K_frame; [exact E | exact HK]].
+  - eapply K_frame; [exact E | exact HK].
+Qed.
+
+Ltac k_upd Hs HK := wsimpl; k_solve Hs HK.
+
+Lemma K_post_call : forall (g : state -> state) w w1,
+  kp (st w1) = kp (st w) -> K (st w) ->
+  (forall s, k_state (k s) = k_state (k (st w)) -> K s -> K (g s)) -> K (g (st w1)).
+Proof.
+  intros g w w1 E HK H. apply H; [apply kp_kstate; exact E | eapply K_frame; [exact E | exact HK]].
+Qed.
+
+Ltac pc s1 E Hs HK :=
+  generalize (eq_trans (kp_kstate _ _ E) Hs) (K_frame _ _ E HK); generalize s1;
+  let s := fresh "s" in let Hs' := fresh "Hs'" in let HK' := fresh "HK'" in intros s Hs' HK'.
+
+Lemma K_cmd_service : forall w, K (st w) -> K (st (fst (cmd_service w))).
+Proof.
+  intros w HK. unfold Fsm.cmd_service. destruct (k_state (k (st w))) eqn:Hs.
+  - (* ERROR *) unfold error_state. apply reading_K with (X := CS_ERROR); [|exact Hs|exact HK].
+    intros ch s Hs' HK'. k_solve Hs' HK'.
+  - (* IDLE *) unfold process_idle_state. apply reading_K with (X := CS_IDLE); [|exact Hs|exact HK].
+    intros ch s Hs' HK'. k_solve Hs' HK'.
+  - unfold parse_prefix. apply reading_K with (X := CS_PARSE_PREFIX); [|exact Hs|exact HK].
+    intros ch s Hs' HK'. k_solve Hs' HK'.
+  - unfold parse_command. apply reading_K with (X := CS_PARSE_COMMAND_CHAR); [|exact Hs|exact HK].
+    intros ch s Hs' HK'. k_solve Hs' HK'.
+  - wsimpl. apply K_update_command; assumption.
+  - unfold wait_read_acknowledge. apply reading_K with (X := CS_WAIT_READ_ACK); [|exact Hs|exact HK].
+    intros ch s Hs' HK'. k_solve Hs' HK'.
+  - wsimpl. apply K_search_command; assumption.
+  - wsimpl. apply K_command_found; assumption.
+  - wsimpl. exact (K_ack_error _).
+  - unfold parse_command_args. apply reading_K with (X := CS_PARSE_COMMAND_ARGS); [|exact Hs|exact HK].
+    intros ch s Hs' HK'. k_solve Hs' HK'.
+  - (* PARSE_WRITE_ARGS *)
+    unfold parse_write_args. cbv zeta.
+    destruct (g_cmd ATCMD (st w)) as [ci|]; [|k_upd Hs HK].
+    destruct (cmd_of D ATCMD (st w)) as [c|]; [|k_upd Hs HK].
+    destruct (nth_error (c_vars c) (k_var (k (st w)))) as [v|]; [|k_upd Hs HK].
+    destruct (nth_error (mem (st w)) (v_slot v)) as [data|]; [|k_upd Hs HK].
+    destruct (decode_var v (skipn (k_position (k (st w))) (cbuf (st w))) data) as [[[pst data'] wsz] n].
+    destruct pst as [| |comma]; [k_upd Hs HK|k_upd Hs HK|].
+    match goal with |- context[Fsm.set_st _ _ _ ?s2 w] => remember s2 as s2' eqn:Es2 end.
+    assert (E2 : kp s2' = kp (st w)) by (subst s2'; autorewrite with kpdb; reflexivity). clear Es2.
+    destruct (v_hwrite v).
+    + destruct (call_h _ _) as [w' r] eqn:E. apply call_h_kfr' in E. cbn [Fsm.st Fsm.set_st] in E. rewrite E2 in E.
+      destruct (negb (r_code r =? 0)%Z); wsimpl.
+      * exact (K_ack_error _).
+      * pc (st w') E Hs HK. k_solve Hs' HK'.
+    + wsimpl. pc s2' E2 Hs HK. k_solve Hs' HK'.
+  - (* FORMAT_READ_ARGS *)
+    unfold format_read_args. cbv zeta.
+    destruct (g_cmd ATCMD (st w)) as [ci|]; [|k_upd Hs HK].
+    destruct (cmd_of D ATCMD (st w)) as [c|]; [|k_upd Hs HK].
+    destruct (nth_error (c_vars c) (g_var ATCMD (st w))) as [v|]; [|k_upd Hs HK].
+    destruct (v_hread v).
+    + destruct (call_h _ _) as [w' r] eqn:E. apply call_h_kfr' in E.
+      destruct (negb (r_code r =? 0)%Z); wsimpl.
+      * exact (K_end_err _).
+      * pc (st w') E Hs HK. unfold next_format_var. k_solve Hs' HK'.
+    + wsimpl. unfold next_format_var. k_solve Hs HK.
+  - unfold wait_test_acknowledge. apply reading_K with (X := CS_WAIT_TEST_ACK); [|exact Hs|exact HK].
+    intros ch s Hs' HK'. destruct (ch =? ch_LF)%N; [apply K_spft; exact HK' | k_solve Hs' HK'].
+  - wsimpl. apply K_fta; assumption.
+  - (* WRITE_LOOP *)
+    unfold process_write_loop. cbv zeta.
+    destruct (g_cmd ATCMD (st w)) as [ci|]; [|k_upd Hs HK].
+    destruct (call_h _ _) as [w' r] eqn:E. apply call_h_kfr' in E. wsimpl.
+    pc (st w') E Hs HK. k_solve Hs' HK'.
+  - (* READ_LOOP *)
+    unfold process_rt_loop. cbv zeta.
+    destruct (g_cmd ATCMD (st w)) as [ci|]; [|k_upd Hs HK].
+    destruct (call_h _ _) as [w' r] eqn:E. apply call_h_kfr' in E. wsimpl.
+    pc (st w') E Hs HK.
+    assert (HK2 : K (apply_edit ATCMD (r_edit r) s)) by (eapply K_frame; [apply kp_apply_edit | exact HK']).
+    assert (Hs2 : k_state (k (apply_edit ATCMD (r_edit r) s)) = CS_READ_LOOP)
+      by (rewrite (kp_kstate _ _ (kp_apply_edit ATCMD (r_edit r) s)); exact Hs').
+    cbv beta iota zeta. generalize dependent (apply_edit ATCMD (r_edit r) s). intros s0 HK2 Hs2.
+    destruct (r_code r =? RC_OK)%Z; [k_leaf Hs2 HK2|].
+    destruct (r_code r =? RC_DATA_OK)%Z; [k_leaf Hs2 HK2|].
+    destruct (r_code r =? RC_DATA_NEXT)%Z; [k_leaf Hs2 HK2|].
+    destruct (r_code r =? RC_NEXT)%Z; [apply K_spfr; exact HK2|].
+    destruct (r_code r =? RC_HOLD)%Z; [k_leaf Hs2 HK2|].
+    destruct (r_code r =? RC_HOLD_EXIT_OK)%Z; [k_leaf Hs2 HK2|].
+    destruct (r_code r =? RC_HOLD_EXIT_ERROR)%Z; [k_leaf Hs2 HK2|].
+    destruct (_ && _); [apply K_start_print_cmd_list | k_leaf Hs2 HK2].
+  - (* TEST_LOOP *)
+    unfold process_rt_loop. cbv zeta.
+    destruct (g_cmd ATCMD (st w)) as [ci|]; [|k_upd Hs HK].
+    destruct (call_h _ _) as [w' r] eqn:E. apply call_h_kfr' in E. wsimpl.
+    pc (st w') E Hs HK.
+    assert (HK2 : K (apply_edit ATCMD (r_edit r) s)) by (eapply K_frame; [apply kp_apply_edit | exact HK']).
+    assert (Hs2 : k_state (k (apply_edit ATCMD (r_edit r) s)) = CS_TEST_LOOP)
+      by (rewrite (kp_kstate _ _ (kp_apply_edit ATCMD (r_edit r) s)); exact Hs').
+    cbv beta iota zeta. generalize dependent (apply_edit ATCMD (r_edit r) s). intros s0 HK2 Hs2.
+    destruct (r_code r =? RC_OK)%Z; [k_leaf Hs2 HK2|].
+    destruct (r_code r =? RC_DATA_OK)%Z; [k_leaf Hs2 HK2|].
+    destruct (r_code r =? RC_DATA_NEXT)%Z; [k_leaf Hs2 HK2|].
+    destruct (r_code r =? RC_NEXT)%Z; [apply K_spft; exact HK2|].
+    destruct (r_code r =? RC_HOLD)%Z; [k_leaf Hs2 HK2|].
+    destruct (r_code r =? RC_HOLD_EXIT_OK)%Z; [k_leaf Hs2 HK2|].
+    destruct (r_code r =? RC_HOLD_EXIT_ERROR)%Z; [k_leaf Hs2 HK2|].
+    destruct (_ && _); cbn [negb]; [apply K_start_print_cmd_list | k_leaf Hs2 HK2].
+  - (* RUN_LOOP *)
+    unfold process_run_loop. cbv zeta.
+    destruct (g_cmd ATCMD (st w)) as [ci|]; [|k_upd Hs HK].
+    destruct (call_h _ _) as [w' r] eqn:E. apply call_h_kfr' in E. wsimpl.
+    pc (st w') E Hs HK.
+    destruct (_ || _); [exact (K_ack_ok _)|].
+    destruct (_ || _); [exact HK'|].
+    destruct (_ =? _)%Z; [k_leaf Hs' HK'|].
+    destruct (_ =? _)%Z; [apply K_start_print_cmd_list | exact (K_ack_error _)].
+  - wsimpl. apply K_process_hold_state; assumption.
+  - wsimpl. apply K_process_io_write_wait; assumption.
+  - (* FLUSH *)
+    unfold process_io_write. cbv zeta.
+    destruct (wbuf_char _ _ _) as [ch|]; [|k_upd Hs HK].
+    destruct (ch =? 0)%N.
+    + wsimpl. destruct (k_wstate (k (st w))); [k_solve Hs HK | k_solve Hs HK |].
+      assert (G : K (setk_state (k_wafter (k (st w))) (st w))).
+      { unfold K in *. autorewrite with kpdb. cbv beta iota zeta delta [kokE kp q_st q_cmd q_wa] in *.
+        rewrite Hs in HK. cbn in HK. destruct (k_wafter (k (st w))); try discriminate HK; reflexivity. }
+      destruct (cstate_beq _ _); [eapply K_frame; [|exact G]; reflexivity | exact G].
+    + destruct (io_write (io w) ch) as [io' ok]. destruct ok; wsimpl; [k_solve Hs HK | exact HK].
+  - wsimpl. apply K_reset_state.
+  - wsimpl. exact (K_ack_ok _).
+  - wsimpl. apply K_spfr; exact HK.
+  - wsimpl. apply K_spft; exact HK.
+  - wsimpl. apply K_print_cmd_list; assumption.
+Qed.
+
+(* ---- the event machine touches the command machine only by enable_hold_state (scope decision D3) ---- *)
+Definition kq (s s' : state) : Prop := kp s' = kp s \/ kp s' = q_st CS_HOLD (kp s).
+
+Lemma K_kq : forall s s', kq s s' -> K s -> K s'.
+Proof.
+  intros s s' [H|H] HK; [eapply K_frame; eauto|]. unfold K. rewrite H. destruct (kp s) as [[a b] d]. reflexivity.
+Qed.
+
+Lemma kp_check : forall s, kp (check_unsolicited_buffers D s) = kp s.
+Proof.
+  intros s. unfold check_unsolicited_buffers. pose proof (kp_pop s) as H.
+  destruct (pop_unsolicited_cmd D s) as [s1 [[ci t]|]]; cbn [fst] in H; [|exact H].
+  destruct t; autorewrite with kpdb; exact H.
+Qed.
+
+Lemma rt_post_kq : forall rd e code s, kq s (rt_post D rd e code s).
+Proof.
+  intros rd e code s. unfold rt_post. cbv beta iota zeta.
+  destruct (code =? RC_OK)%Z; [left; autorewrite with kpdb; reflexivity|].
+  destruct (code =? RC_DATA_OK)%Z; [left; autorewrite with kpdb; reflexivity|].
+  destruct (code =? RC_DATA_NEXT)%Z; [left; destruct rd; autorewrite with kpdb; reflexivity|].
+  destruct (code =? RC_NEXT)%Z; [left; destruct rd; autorewrite with kpdb; reflexivity|].
+  destruct (code =? RC_HOLD)%Z; [right; autorewrite with kpdb; reflexivity|].
+  destruct (code =? RC_HOLD_EXIT_OK)%Z; [left; autorewrite with kpdb; reflexivity|].
+  destruct (code =? RC_HOLD_EXIT_ERROR)%Z; [left; autorewrite with kpdb; reflexivity|].
+  destruct (_ && _); left; autorewrite with kpdb; reflexivity.
+Qed.
+
+Lemma fra_post_kp : forall v c s, kp (fra_post D v c s) = kp s.
+Proof. intros. unfold fra_post. kp_solve. Qed.
+
+Lemma uns_kq : forall w, kq (st w) (st (fst (unsolicited_events_service w))).
+Proof.
+  intros w. unfold Fsm.unsolicited_events_service.
+  destruct (u_state (u (st w))); try (left; wsimpl; autorewrite with kpdb; reflexivity).
+  - (* IDLE *) left. destruct (negb _); [|reflexivity]. wsimpl.
+    destruct (ring_items D (st w)); wsimpl; apply kp_check.
+  - (* FORMAT_READ_ARGS *) left. unfold format_read_args. cbv zeta.
+    destruct (g_cmd UNSOL (st w)) as [ci|]; [|reflexivity].
+    destruct (cmd_of D UNSOL (st w)) as [c|]; [|reflexivity].
+    destruct (nth_error (c_vars c) (g_var UNSOL (st w))) as [v|]; [|reflexivity].
+    destruct (v_hread v).
+    + destruct (call_h _ _) as [w' r] eqn:E. apply call_h_kfr' in E.
+      destruct (negb (r_code r =? 0)%Z); wsimpl.
+      * autorewrite with kpdb. exact E.
+      * rewrite <- E. apply (fra_post_kp v c).
+    + wsimpl. apply (fra_post_kp v c).
+  - (* READ_LOOP *) unfold process_rt_loop. cbv zeta.
+    destruct (g_cmd UNSOL (st w)) as [ci|]; [|left; reflexivity].
+    destruct (call_h _ _) as [w' r] eqn:E. apply call_h_kfr' in E. wsimpl.
+    destruct (rt_post_kq true (r_edit r) (r_code r) (st w')) as [H|H]; [left|right]; rewrite <- E; exact H.
+  - (* TEST_LOOP *) unfold process_rt_loop. cbv zeta.
+    destruct (g_cmd UNSOL (st w)) as [ci|]; [|left; reflexivity].
+    destruct (call_h _ _) as [w' r] eqn:E. apply call_h_kfr' in E. wsimpl.
+    destruct (rt_post_kq false (r_edit r) (r_code r) (st w')) as [H|H]; [left|right]; rewrite <- E; exact H.
+  - (* FLUSH *) left. unfold unsolicited_process_io_write. cbv zeta.
+    destruct (wbuf_char _ _ _) as [ch|]; [|reflexivity].
+    destruct (ch =? 0)%N.
+    + wsimpl. destruct (u_wstate (u (st w))); reflexivity.
+    + destruct (io_write (io w) ch) as [io' ok]. destruct ok; reflexivity.
+Qed.
+
+Lemma K_service_body : forall w, K (st w) -> K (st (fst (service_body w))).
+Proof.
+  intros w HK. unfold Fsm.service_body.
+  pose proof (K_kq _ _ (uns_kq w) HK) as H1.
+  destruct (unsolicited_events_service w) as [w1 us]. cbn [fst] in H1.
+  pose proof (K_cmd_service w1 H1) as H2.
+  destruct (cmd_service w1) as [w2 s]. cbn [fst] in H2.
+  destruct (_ || _); exact H2.
+Qed.
+
+Lemma bracket_K : forall w body, (forall w0, K (st w0) -> K (st (fst (body w0)))) ->
+  K (st w) -> K (st (fst (bracket w body))).
+Proof.
+  intros w body H HK. unfold Fsm.bracket. destruct (d_mutex D); [|apply H; exact HK].
+  destruct (mu_lock (mu w)) as [m1 ok]. destruct ok; cbn [negb]; [|exact HK].
+  pose proof (H (logw (ELock true) (set_mu m1 w)) HK) as H1.
+  destruct (body (logw (ELock true) (set_mu m1 w))) as [w2 s]. cbn [fst] in H1.
+  destruct (mu_unlock (mu w2)) as [m2 ok2]. destruct ok2; exact H1.
+Qed.
+
+Lemma K_do_op : forall w o, K (st w) -> K (st (fst (do_op w o))).
+Proof.
+  intros w o HK. destruct o as [|ci t|status| | | |ci t|f|i b|g b]; cbn [Fsm.do_op fst].
+  - unfold Fsm.api_service. apply bracket_K; [|exact HK]. intros w0 H0. apply K_service_body; exact H0.
+  - eapply K_frame; [apply api_trigger_kfr | exact HK].
+  - eapply K_frame; [apply api_hold_exit_kfr | exact HK].
+  - unfold Fsm.api_is_busy. apply bracket_K; [|exact HK]. intros w0 H0. exact H0.
+  - unfold Fsm.api_is_hold. apply bracket_K; [|exact HK]. intros w0 H0. exact H0.
+  - unfold Fsm.api_is_full. apply bracket_K; [|exact HK]. intros w0 H0. exact H0.
+  - exact HK.
+  - exact HK.
+  - exact HK.
+  - exact HK.
+Qed.
+
+Lemma K_run : forall ops w, K (st w) -> K (st (run w ops)).
+Proof.
+  induction ops as [|o ops IH]; intros w HK; cbn [Fsm.run fold_left]; [exact HK|].
+  apply IH. unfold Fsm.step. pose proof (K_do_op w o HK) as H. destruct (do_op w o) as [w' r]. exact H.
+Qed.
+
+(* every history, every oracle, no hypothesis: between command lines no command is selected *)
+Theorem idle_cmd_none : forall m x mx h ops,
+  let w := run (mkWorld (init_state D m) x mx h []) ops in
+  k_state (k (st w)) = CS_IDLE -> k_cmd (k (st w)) = None.
+Proof.
+  intros m x mx h ops w Hs. apply K_idle; [|exact Hs]. apply K_run. reflexivity.
+Qed.
+
+Theorem get_processed_atcmd : forall m x mx h ops,
+  let w := run (mkWorld (init_state D m) x mx h []) ops in
+  get_processed (st w) ATCMD = match k_cmd (k (st w)) with Some ci => Z.of_nat ci | None => (-1)%Z end /\
+  (k_state (k (st w)) = CS_IDLE -> get_processed (st w) ATCMD = (-1)%Z).
+Proof.
+  intros m x mx h ops w. split; [reflexivity|]. intros Hs.
+  pose proof (idle_cmd_none m x mx h ops Hs) as H. fold w in H.
+  unfold get_processed, g_cmd. rewrite H. reflexivity.
+Qed.
+
+End KWorld.
